@@ -92,3 +92,22 @@ CHECKS["C18"] = {
         "normalvariate is only checked for determinism (same seed, same stream)",
     ],
 }
+
+CHECKS["C05"] = {
+    "title": "grammar analysis is exact",
+    "run": std_run,
+    "models": [
+        {"module": "MC_C05", "cfg": "MC_C05.cfg", "workers": 12, "timeout": 600},
+        {"module": "MC_C05", "cfg": "MC_C05_deep.cfg", "workers": 12, "timeout": 600},
+    ],
+    "drivers": [{"module": "harness.drv_c05", "trace": "Trace_C05"}],
+    "shards": {"quick": 2, "thorough": 14},
+    "rule": "one trace per class hierarchy (fixed regression grammars + members of the generated family); events are the "
+            "projections of the Grammar objects built by extract_grammar in both depth modes and by usable_grammar; "
+            "distinct = distinct hierarchies by content",
+    "assumptions": [
+        "the declared hierarchy is read from the Python classes with typing.get_type_hints, independently of extract_grammar",
+        "minimum depths in expansion-depthing mode are only judged on grammars made of symbols and base types",
+        "the usable sub-grammar may additionally register abstract ancestors of reachable classes",
+    ],
+}
